@@ -18,6 +18,7 @@ from scipy.interpolate import CubicSpline
 
 from autofit.interpolator.linear import LinearInterpolator
 from autofit.interpolator.spline import SplineInterpolator
+from autofit.interpolator.query import InterpolatorPath, Equality
 
 INTERNAL = ("id", "_is_frozen", "_frozen_cache", "_label")
 
@@ -51,7 +52,8 @@ def build(t):
     if "d" in t:
         return {k: build(c) for k, c in t["d"]}
     if "i" in t:
-        return int(t["i"])
+        # with numpy leaves an int is a numpy.int64 (what indexing an integer array yields)
+        return np.int64(t["i"]) if NPFLOAT[0] else int(t["i"])
     if "x" in t:
         if t["x"] == 9:
             return Holder
@@ -199,6 +201,21 @@ def oracle_value(req):
     return out
 
 
+def scribble(res):
+    """the user edits the instance a query handed out: every float the walk finds"""
+    try:
+        for path, _ in list(res.path_instance_tuples_for_class(float)):
+            holder = res
+            for k in path[:-1]:
+                holder = holder[k] if isinstance(k, int) or isinstance(holder, dict) else getattr(holder, k)
+            if isinstance(path[-1], int) or isinstance(holder, dict):
+                holder[path[-1]] = -777.25
+            else:
+                setattr(holder, path[-1], -777.25)
+    except BaseException:  # noqa  (a frozen instance refuses: nothing to edit)
+        pass
+
+
 def run_series(s):
     trees = s["insts"]
     NPFLOAT[0] = bool(s.get("feats", {}).get("npfloat"))
@@ -217,7 +234,8 @@ def run_series(s):
     abs_ok = [drop_item_number(b) == strip(t) for b, t in zip(built, trees)]
     before = snapshot(objs)
     results = []
-    interpolators = {}     # one interpolator per (order, method), queried repeatedly (multi-step history)
+    interpolators = {}     # one interpolator per (order, method) -- or per named object `obj` whose series is changed
+    equalities = {}        # Equality objects kept by the user and asked again (also of another interpolator)
     for q in s["queries"]:
         order = q["perm"]
         supplied = [objs[j] for j in order]
@@ -225,14 +243,52 @@ def run_series(s):
         value = build(q["value"])
         r = {}
         try:
-            key = (tuple(order), q["method"])
+            key = (q["obj"], q["method"]) if q.get("obj") else (tuple(order), q["method"])
+            how = q.get("how")
             if key not in interpolators:
                 interpolators[key] = cls(list(supplied))
+            elif how == "assign":
+                interpolators[key].instances = list(supplied)           # the public attribute is given a new list
+            elif how == "edit":
+                lst = interpolators[key].instances                       # ... or the list it hands out is edited in place
+                if len(supplied) == len(lst) + 1 and all(a is b for a, b in zip(lst, supplied)):
+                    lst.append(supplied[-1])
+                elif len(supplied) == len(lst) - 1 and all(a is b for a, b in zip(lst, supplied)):
+                    lst.pop()
+                elif len(supplied) == len(lst) and all(a is b for a, b in zip(reversed(lst), supplied)):
+                    lst.reverse()
+                else:
+                    lst[:] = supplied
             interp = interpolators[key]
-            p = interp
-            for name in q["path"]:
-                p = getattr(p, name)
-            res = interp[p == value]
+            route = q.get("route", "chain")
+            if route == "explicit":
+                eq = Equality(InterpolatorPath(list(q["path"])), value)
+            elif route == "reuse":
+                ek = (tuple(q["path"]), json.dumps(q["value"], sort_keys=True))
+                if ek not in equalities:
+                    p = interp
+                    for name in q["path"]:
+                        p = getattr(p, name)
+                    equalities[ek] = (p == value)
+                eq = equalities[ek]
+            elif route == "prefix":
+                # the user keeps every prefix path object and also extends / compares it in other ways
+                p = getattr(interp, q["path"][0])
+                kept = [p]
+                for name in q["path"][1:]:
+                    _decoy = getattr(p, "decoy_" + name)
+                    _other = (p == 123.25)
+                    p = getattr(p, name)
+                    kept.append(p)
+                _decoy = p.decoy_leaf
+                _other = (p == -1.5)
+                eq = (p == value)
+            else:
+                p = interp
+                for name in q["path"]:
+                    p = getattr(p, name)
+                eq = (p == value)
+            res = interp[eq]
             pos = [i for i, o in enumerate(supplied) if o is res]
             if pos:
                 r["kind"] = "same"
@@ -244,6 +300,8 @@ def run_series(s):
                 r["odd"] = odd
                 shared = mutable_ids(res, set()) & set().union(*[set(b[2]) for b in before])
                 r["shares_mutable_with_inputs"] = bool(shared)
+                if q.get("scribble"):
+                    scribble(res)
             r["list_unchanged"] = len(interp.instances) == len(supplied) and all(a is b for a, b in zip(interp.instances, supplied))
         except BaseException as e:  # noqa
             r["kind"] = "exc"
